@@ -53,6 +53,10 @@ theorem sliceI_from1 (b : Bytes) : sliceI b (1 : Int) (b.length : Int) = sliceFr
   have := sliceI_from b 1
   simpa using this
 
+theorem sliceI_from2 (b : Bytes) : sliceI b (2 : Int) (b.length : Int) = sliceFrom b 2 := by
+  have := sliceI_from b 2
+  simpa using this
+
 theorem sliceI_from_2add (b : Bytes) (n : Nat) :
     sliceI b ((2 : Int) + (n : Int)) (b.length : Int) = sliceFrom b (2 + n) := by
   rw [← sliceI_from b (2 + n)]; congr 1
